@@ -148,6 +148,15 @@ CLAIMED["C16"] = ("Partial proof of the SignedData verification gates and of the
  "Trusted: getCertFromCertsByIssuerAndSerial, unmarshalAttribute, marshalAttributes, getHashForOID/newHash, verifyCertChain, Certificate.CheckSignature(WithDigest) (frames only), hash.Hash interface, subtle.ConstantTimeCompare.",
  "DESIGN.md §0.2, §4 C16")
 
+CLAIMED["C15"] = ("Partial proof of the certificate signature gates: CheckSignatureFrom returns nil only if the parent is a CA (basic constraints valid with cA; a v3 parent without basic constraints is refused), its key usage - "
+ "when present - contains certSign, its key algorithm is known, and checkSignature accepted the child's TBS bytes and signature value under the parent's public key; checkSignature and CheckSignatureWithDigest return nil "
+ "only if the verification primitive matching both the signature algorithm's key type and the key's dynamic type accepted exactly the given signature (SM2-with-SM3: the unhashed message goes to the SM2 verifier, which "
+ "computes ZA; a digest of the wrong length is refused; MD5 refused, SHA-1 only when allowed); in chain building a candidate parent extends a chain only after CheckSignatureFrom and then isValid (for its role) returned nil. "
+ "Not decided: certificate/CSR/CRL creation and the parse round trip (encoding/asn1 reflection), isValid's own rules (validity period, name constraints, path length, EKU nesting), that altering any signed byte is detected "
+ "(rests on the primitives), CRL and CSR signature entry points.",
+ "Trusted: rsa/ecdsa/ed25519/sm2 verification primitives, crypto.Hash, isRSAPSS, the signature algorithm table (its contents are not known to the verifier), isValid, alreadyInChain, pool constraint callbacks.",
+ "DESIGN.md §0.2, §4 C15")
+
 NOT_APPLICABLE = {
  "C02": "Not reached by the contract technique in this build: the SM4 round function (S-box tables, 32-bit rotations, XOR network) needs the bit-vector mode of the verifier, which exists only as a skeleton; the AES-NI/AVX assembly tiers are outside any Go-level contract. The Go wrappers around the SM4 assembly that cipher modes use are covered under C03. No other technique was substituted.",
  "C04": "GCM/CCM: table-driven GHASH and the fused SM4-GCM assembly need bit-vector reasoning over carry-less multiplication that the arith-mode VC generator cannot express; CCM's Go glue was planned but not reached in this build.",
